@@ -1,6 +1,4 @@
-import H2V.Lemmas.ConnHttpPMain
-import H2V.Lemmas.ConnHttpPCl
-import H2V.Lemmas.ConnHttpPSend
+import H2V.Lemmas.ConnHttpPConn
 import H2V.Lemmas.ConnHttpPCex
 /-
   C13 — malformed HTTP messages are neither delivered nor generated.
@@ -47,14 +45,33 @@ theorem delivered_block_obeys_common_rules (r : Reader) (g : List Header) (bytes
     blk.isMalformed = false ∧
     (blk.isOverSize = true ∨
       (Spec.Http.common (ghostNext g r bytes) = [] ∧ PseudoExact (ghostNext g r bytes) blk.pseudo ∧
-        blk.fields = groupInto [] (regular (ghostNext g r bytes)))) := by
-  obtain ⟨hm, hb, hok⟩ := (decodeFrame_inv r g bytes hi).2 blk hd
-  refine ⟨hm, ?_⟩
-  cases ho : blk.isOverSize with
-  | true => exact Or.inl rfl
-  | false => exact Or.inr (block_exact blk _ hm ho hb hok)
+        blk.fields = groupInto [] (regular (ghostNext g r bytes)))) :=
+  ⟨(delivered_block_common r g bytes blk hi hd).1, (delivered_block_common r g bytes blk hi hd).2.2.2⟩
 
 example : RInv rd0 [] ∧ (dfBlock (decodeFrame rd0 getFrame).2).isSome = true := ⟨rinv_new _, by decide +kernel⟩
+
+/-- **From the wire to the block, any fragmentation.** After ANY sequence of frames from a fresh reader, a
+    HEADERS / PUSH_PROMISE block that the next frame completes is unflagged and stands for the field
+    list `(d0.decode src).fields`, where `src` is the CONCATENATION of the block's fragments (collected by
+    the transparent ghost `wireNext`) and `d0` the HPACK decoder when the block began; that decoding
+    succeeded; all its fields passed `Header::new`. (With `H2V.Lemmas.HpackDec.decode_sound` this is the
+    RFC 7541 decoding of the block.) No hypothesis beyond "the frame delivers a block". -/
+theorem delivered_block_is_decoding_of_concatenated_fragments (maxFrameSize : Nat) (frames : List Bytes) (bytes : Bytes)
+    (blk : HeaderBlock)
+    (hd : dfBlock (decodeFrame (runFrames (Reader.new maxFrameSize, [], none) frames).1 bytes).2 = some blk) :
+    ∃ d0 src, (d0.decode src).result = .ok () ∧ blk.isMalformed = false ∧ BlockInv blk (d0.decode src).fields ∧
+      (∀ x ∈ (d0.decode src).fields, fieldOk x = true) ∧
+      wireNext (runFrames (Reader.new maxFrameSize, [], none) frames).2.2
+        (runFrames (Reader.new maxFrameSize, [], none) frames).1 bytes = some (d0, src) :=
+  delivered_block_is_decoding_of_concatenation maxFrameSize frames bytes blk hd
+
+/-- a request cut into three fragments (the last cut inside a literal): `src` is the concatenation, the
+    block is delivered -/
+example :
+    (wireNext (runFrames (rd0, [], none) [cut1, cut2]).2.2 (runFrames (rd0, [], none) [cut1, cut2]).1 cut3).map (·.2)
+      = some [0x82, 0x86, 0x84, 0x41, 1, 97] ∧
+    (dfBlock (decodeFrame (runFrames (rd0, [], none) [cut1, cut2]).1 cut3).2).isSome = true :=
+  ⟨fragmented_block_witness.1, fragmented_block_witness.2.2.1⟩
 
 /-- **Once malformed, always malformed** (the repaired finding N1): when a fragment has raised the
     flag, no later fragment of the block makes `HeaderBlock::load` answer `Ok`. -/
@@ -74,17 +91,8 @@ theorem violating_field_raises_flag (b : HeaderBlock) (fs : List Header) (src : 
     (hbad : Spec.Http.common (fs ++ loadedFields dec src) ≠ []) :
     (HeaderBlock.load b src maxList dec).2.2.2 = .error .headerListWayTooLarge ∨
     (HeaderBlock.load b src maxList dec).1.isMalformed = true ∨
-    (HeaderBlock.load b src maxList dec).1.isOverSize = true := by
-  by_cases hw : (HeaderBlock.load b src maxList dec).2.2.2 = .error .headerListWayTooLarge
-  · exact Or.inl hw
-  · right
-    have hinv := load_inv b fs src maxList dec hb hw
-    cases hm : (HeaderBlock.load b src maxList dec).1.isMalformed with
-    | true => exact Or.inl rfl
-    | false =>
-      cases ho : (HeaderBlock.load b src maxList dec).1.isOverSize with
-      | true => exact Or.inr rfl
-      | false => exact absurd (block_exact _ _ hm ho hinv hok).1 hbad
+    (HeaderBlock.load b src maxList dec).1.isOverSize = true :=
+  violating_field_flag b fs src maxList dec hb hok hbad
 
 example : BlockInv {} [] := blockInv_empty
 
@@ -100,15 +108,15 @@ example : BlockInv {} [] := blockInv_empty
       `:authority`), and the fields handed over are exactly the regular fields of `g`;
     * a `headers` / `informational` response (client only): the only rules that may be violated are
       `missing-status` (delivered as 200) and `request-pseudo-in-response` (known findings F5b, F5a);
-    * `trailers`: only `pseudo-in-trailers` may be violated (known finding F5c) — unless the trailers
-      block is over-size (finding N6: delivered truncated).
+    * `trailers`: only `pseudo-in-trailers` may be violated (known finding F5c); the fields handed over
+      are exactly the regular fields of `g` (over-size trailers are refused: finding N6, repaired).
     In particular a head with a `:status` in a request, without `:method`, without `:scheme`, with an
     empty `:path`, CONNECT with `:scheme`/`:path`, `:protocol` without extended CONNECT … is never
     queued. -/
 theorem recv_headers_hands_over_only_checked_messages (s : Streams) (blk : HeaderBlock) (g : List Header)
     (sid : Nat) (eos : Bool) (hm : blk.isMalformed = false) (hb : BlockInv blk g)
     (hok : ∀ x ∈ g, fieldOk x = true) :
-    Delivers (fun _ ev => ValidEvent (cfgOf s) blk g ev) s (s.recvHeaders (Conn.headersIn sid eos blk)).1 :=
+    Delivers (fun _ ev => ValidEvent (cfgOf s) g ev) s (s.recvHeaders (Conn.headersIn sid eos blk)).1 :=
   recvHeaders_valid s blk g sid eos hm hb hok
 
 /-- the hypotheses are met by every block `decode_frame` delivers, and the conclusion is not vacuous:
@@ -137,6 +145,12 @@ theorem accepted_head_sets_content_length (s : Streams) (k : Nat) (blk : HeaderB
     clOf (s.recvRecvHeaders k (Conn.headersIn sid eos blk)).1 k = some (.remaining n) ∧
     ¬(eos = true ∧ n > 0 ∧ statusNot204304 (Conn.headersIn sid eos blk) = true) :=
   accepted_head_content_length s k blk g sid eos cl0 n hf live hnh hspec hok
+
+example : Spec.Http.contentLength (fieldsOf rd0 oneClFrame) = some (some 5) ∧
+    ((hdrOf rd0 oneClFrame).map fun h => clOf (rhEntry srv0 h).1 0) = some (some .omitted) ∧
+    ((hdrOf rd0 oneClFrame).map fun h => ((rhEntry srv0 h).1.recvRecvHeaders 0 h).2.isOk) = some true ∧
+    ((hdrOf rd0 oneClFrame).map fun h => clOf (srv0.recvHeaders h).1 0) = some (some (.remaining 5)) :=
+  ⟨content_length_witness.1, content_length_witness.2.1, content_length_witness.2.2.1, content_length_witness.2.2.2.1⟩
 
 /-- **The ledger, for all DATA length sequences.** Along every history of a stream's body — DATA
     frames that `recv_data` answered `Ok` while the stream was not being ignored, interleaved with
@@ -179,6 +193,119 @@ theorem recv_data_hands_over_only_its_payload (s : Streams) (id : Nat) (payload 
     (∀ e, (s.recvRecvData id payload eos pad).2 = .error e → Quiet s (s.recvRecvData id payload eos pad).1) :=
   recvRecvData_delivers s id payload eos pad
 
+
+-- ===================================================================== 3b. refused messages fail the stream
+
+/-- **"The stream (or connection) is failed instead", heads.** When `Recv::recv_headers` refuses a head
+    with a stream error (every refusal of a malformed head is `library_reset(PROTOCOL_ERROR)`), the
+    transition closure of `Inner::recv_headers` ends in one of two ways: the connection error
+    ENHANCE_YOUR_CALM "too_many_internal_resets", or `Ok` with the stream — if it is still in the store —
+    `Failed`: in the state `Closed(Error(Reset(id, reason, Library)))` (or whatever reset state it was in
+    before). For every state. -/
+theorem refused_head_fails_stream (s : Streams) (k : Nat) (h : HeadersIn) (i : Nat) (reason : Reason) (init : Initiator)
+    (hrh : (s.stream k).state.isRecvHeaders = true) (hr : (s.recvRecvHeaders k h).2 = .state (.reset i reason init)) :
+    FailsStream (s.recvRecvHeaders k h).1 k reason init (s.transition k fun s => rhBody s k h) :=
+  refused_head_fails s k h i reason init hrh hr
+
+/-- hypotheses met, conclusion visible: a request head carrying `:status` is refused that way; afterwards
+    the stream is reset, RST_STREAM(PROTOCOL_ERROR) is queued and nothing was handed over -/
+example :
+    ((hdrOf rd0 statusReqFrame).map fun h => stateErrOf ((rhEntry srv0 h).1.recvRecvHeaders 0 h).2) =
+      some (some (.reset 1 Conn.PROTOCOL_ERROR .library)) ∧
+    ((hdrOf rd0 statusReqFrame).map fun h => ((rhEntry srv0 h).1.stream 0).state.isRecvHeaders) = some true :=
+  ⟨status_in_request_refused.1, status_in_request_refused.2.1⟩
+
+/-- … trailers refused with a stream error (content-length not used up) fail the stream the same way -/
+theorem refused_trailers_fail_stream (s : Streams) (k : Nat) (h : HeadersIn) (i : Nat) (reason : Reason)
+    (init : Initiator) (hrh : (s.stream k).state.isRecvHeaders = false) (heos : h.eos = true)
+    (hr : (s.recvRecvTrailers k h).2 = .error (.reset i reason init)) :
+    FailsStream (s.recvRecvTrailers k h).1 k reason init (s.transition k fun s => rhBody s k h) :=
+  refused_trailers_fail s k h i reason init hrh heos hr
+
+example : ((hdrOf rd0 oneClFrame).map fun h => ((srv0.recvHeaders h).1.stream 0).state.isRecvHeaders) = some false ∧
+    ((hdrOf rd0 oneClFrame).map fun h =>
+      errOf ((srv0.recvHeaders h).1.recvRecvTrailers 0 { sid := 1, eos := true, status := none }).2) =
+        some (some (.reset 1 Conn.PROTOCOL_ERROR .library)) :=
+  ⟨content_length_witness.2.2.2.2.1, content_length_witness.2.2.2.2.2⟩
+
+/-- **"A body that ends short of or beyond its content-length is reported as an error", part 1**: such
+    a DATA frame is never answered `Ok` … -/
+theorem data_violating_content_length_is_refused (s : Streams) (k : Nat) (payload : Bytes) (eos : Bool)
+    (padLen : Option Nat) (cl : ContentLength) (hk : clOf s k = some cl) (hnl : (s.stream k).state.isLocalError = false)
+    (hbad : decCL cl payload.length = none ∨
+      (eos = true ∧ ∀ cl', decCL cl payload.length = some cl' → zeroCL cl' = false)) :
+    (s.recvRecvData k payload eos padLen).2 ≠ .ok () :=
+  data_against_content_length_refused s k payload eos padLen cl hk hnl hbad
+
+example : decCL (.remaining 5) 6 = none ∧ decCL (.remaining 5) 4 = some (.remaining 1) ∧ zeroCL (.remaining 1) = false := by
+  decide
+
+/-- … part 2: a DATA frame refused with a stream error fails the stream (or the connection) … -/
+theorem refused_data_fails_stream (s : Streams) (k : Nat) (payload : Bytes) (eos : Bool) (padLen : Option Nat)
+    (i : Nat) (reason : Reason) (init : Initiator) (hr : (s.recvRecvData k payload eos padLen).2 = .error (.reset i reason init)) :
+    FailsStream (s.recvRecvData k payload eos padLen).1 k reason init (s.transition k fun s => rdBody s k payload eos padLen) :=
+  refused_data_fails s k payload eos padLen i reason init hr
+
+example : ((hdrOf rd0 twoClFrame).map fun h =>
+    errOf ((srv0.recvHeaders h).1.recvRecvData 0 [1, 2, 3, 4, 5, 6] false none).2) =
+      some (some (.reset 1 Conn.PROTOCOL_ERROR .library)) := data_against_content_length_witness.1
+
+/-- … part 3: on a `Failed` stream (not reset before) whose receive queue is drained, `poll_data`,
+    `poll_trailers` and `poll_response` all answer the reset error — never "end of stream". -/
+theorem failed_stream_polls_answer_error (s : Streams) (k : Nat) (tag : String) (fuel : Nat) (st : Stream)
+    (reason : Reason) (init : Initiator) (hf : Failed st reason init (s.stream k)) (hnr : st.state.isReset = false)
+    (hq : (s.stream k).pendingRecv = []) :
+    (∃ s', s.recvPollData k tag = (s', .err (.reset st.id reason init))) ∧
+    (∃ s', s.recvPollTrailers k tag = (s', .err (.reset st.id reason init))) ∧
+    (∃ s', Streams.recvPollResponse (fuel + 1) s k tag = (s', .err (.reset st.id reason init))) :=
+  failed_polls s k tag fuel st reason init hf hnr hq
+
+example : ((hdrOf rd0 statusReqFrame).map fun h => (srv0.recvHeaders h).1.store.slab.map fun st => st.state.isReset) = some [true] ∧
+    ((hdrOf rd0 statusReqFrame).map fun h => (srv0.recvHeaders h).1.store.slab.map fun st => st.pendingRecv) = some [[]] ∧
+    ((hdrOf rd0 statusReqFrame).map fun h => pollErr ((srv0.recvHeaders h).1.recvPollData 0 "b0").2) =
+      some (some (.reset 1 Conn.PROTOCOL_ERROR .library)) :=
+  ⟨status_in_request_refused.2.2.1, status_in_request_refused.2.2.2.1, refused_head_poll_witness⟩
+
+-- ===================================================================== 3c. PUSH_PROMISE and the whole read loop
+
+/-- **Pushes.** `Inner::recv_push_promise`, every state: all that reaches any receive queue is at most one
+    `request` event for a promised request that passed `convert_poll_message` and
+    `PushPromise::validate_request` (`PromiseAccepted`; in the reference's terms see
+    `recv_frame_hands_over_only_valid_messages`). -/
+theorem recv_push_promise_hands_over_only_checked_requests (s : Streams) (id : Nat) (h : HeadersIn) :
+    Delivers (fun _ ev => PromiseAccepted h ev) s (s.recvPushPromise id h).1 :=
+  recvPushPromise_delivers s id h
+
+/-- **The connection invariant**: both handshakes establish `CInv` (the reader invariant of the codec's
+    read half), and `Connection::poll` (`proto`, and the client's wrapper) keeps it, for any fuel, any
+    transport content, any state. (Every other API call leaves the read half alone.) -/
+theorem connection_invariant (g : Conn.Cfg) (ecp : Bool) (peerFirst : Bytes) :
+    CInv (Conn.init g) ∧ CInv (Conn.initServer g ecp peerFirst) ∧
+    (∀ fuel c, CInv c → CInv (Conn.protoPoll fuel c).1) ∧ (∀ fuel c, CInv c → CInv (Conn.clientPoll fuel c).1) :=
+  ⟨init_cinv g, initServer_cinv g ecp peerFirst, protoPoll_cinv, clientPoll_cinv⟩
+
+/-- **`poll_next` yields good frames only**: under the invariant, a frame it yields carries — if it is a
+    HEADERS or PUSH_PROMISE frame — an unflagged block that stands for a list of fields that passed
+    HPACK. -/
+theorem poll_next_yields_good_frames (fuel : Nat) (c : Codec) (tag : String) (h : RInv' c.r) :
+    RInv' (pollNext fuel c tag).1.r ∧ ∀ f, (pollNext fuel c tag).2 = .frame f → GoodFrame f :=
+  pollNext_good fuel c tag h
+
+example : RInv' (Conn.init {}).codec.r := init_cinv {}
+
+/-- **One turn of the read loop, every connection state, every frame type** (`none` = end of input):
+    for a frame as `poll_next` yields it, everything `DynConnection::recv_frame` puts into any receive
+    queue is ONE event satisfying `ValidFrameEvent`: for HEADERS a `ValidEvent` (see
+    `recv_headers_hands_over_only_checked_messages`), for DATA its own payload, for PUSH_PROMISE a GET /
+    HEAD request obeying `Spec.Http.request` up to `missing-path` without `:authority`; RST_STREAM,
+    SETTINGS, PING, GOAWAY, WINDOW_UPDATE, PRIORITY and end of input hand over nothing. -/
+theorem recv_frame_hands_over_only_valid_messages (c : Conn) (f : Option Frame.Frame)
+    (hgood : ∀ fr, f = some fr → GoodFrame fr) :
+    Delivers (fun _ ev => ValidFrameEvent (cfgOf c.streams) f ev) c.streams (c.recvFrame f).1.streams :=
+  recvFrame_valid c f hgood
+
+example : GoodFrame (.data 1 [1, 2, 3] false none) := fun _ hb => by cases hb
+
 -- ===================================================================== 4. the send side
 
 /-- **The send API refuses connection-specific fields and a leading `te` ≠ trailers, before touching
@@ -203,15 +330,8 @@ theorem send_api_accepts_only_checked (fields : List Hpack.Field)
          (∃ s p pk pid, (Streams.sendPushPromise s p pk pid fields).2 = .ok ()) ∨
          (∃ s isHead eos p r, (Streams.sendRequest s isHead fields eos p).2 = .ok r)) :
     "connection-specific-field" ∉ Spec.Http.common (wireFields fields) ∧
-    (∀ f, fields.find? (fun f => f.h.1 == Spec.Http.ascii "te") = some f → f.h.2 = Spec.Http.ascii "trailers") := by
-  have hc : Streams.checkHeaders fields = .ok () := by
-    rcases h with ⟨s, id, eos, h⟩ | ⟨s, id, h⟩ | ⟨s, id, h⟩ | ⟨s, p, pk, pid, h⟩ | ⟨s, ih, eos, p, r, h⟩
-    · exact sendHeaders_ok s id eos fields h
-    · exact sendTrailers_ok s id fields h
-    · exact sendInterim_ok s id fields h
-    · exact sendPushPromise_ok s p pk pid fields h
-    · exact sendRequest_ok s ih fields eos p r h
-  exact ⟨checkHeaders_ok_spec fields hc, (checkHeaders_ok fields hc).2⟩
+    (∀ f, fields.find? (fun f => f.h.1 == Spec.Http.ascii "te") = some f → f.h.2 = Spec.Http.ascii "trailers") :=
+  send_accepts_checked fields h
 
 example : ∃ r, (cli0.sendRequest false [Conn.field ":method" "GET", Conn.field ":scheme" "http",
     Conn.field ":authority" "example.com", Conn.field ":path" "/"] true none).2.toOption = some r :=
@@ -266,16 +386,19 @@ theorem empty_content_length_counterexample :
     ((queuesAfter srv0 rd0 emptyClFrame).map fun q => q.map (·.length)) = some [1] :=
   H2V.Lemmas.ConnHttpP.empty_content_length_counterexample
 
-/-- N6 (new finding, reproduced): trailers beyond SETTINGS_MAX_HEADER_LIST_SIZE are delivered without
-    the fields that did not fit (`x-b` is gone) -/
-theorem oversize_trailers_truncated_counterexample :
+/-- N6 (found here, since repaired): trailers beyond SETTINGS_MAX_HEADER_LIST_SIZE — formerly handed over
+    without the fields that did not fit — are refused: no `trailers` event, stream reset PROTOCOL_ERROR -/
+theorem oversize_trailers_rejected :
     ((hdrOf rd200 postFrame).bind fun h =>
-      (queuesAfter (srv0.recvHeaders h).1 (decodeFrame rd200 postFrame).1 bigTrailers).map fun q =>
-        q.map fun evs => evs.map fun ev => match ev with
-          | .trailers f => some (f.map (·.1))
-          | _ => none) = some [[none, some [[120, 45, 97]]]] ∧
+      (hdrOf (decodeFrame rd200 postFrame).1 bigTrailers).map fun t =>
+        (t.isOverSize, ((srv0.recvHeaders h).1.recvHeaders t).1.store.slab.map fun st =>
+          (st.state.isReset, st.pendingRecv.length))) = some (true, [(true, 1)]) ∧
+    ((hdrOf rd200 postFrame).bind fun h =>
+      (hdrOf (decodeFrame rd200 postFrame).1 bigTrailers).map fun t =>
+        ((srv0.recvHeaders h).1.recvHeaders t).1.store.slab.map fun st => st.pendingSend) =
+      some [[.reset Conn.PROTOCOL_ERROR]] ∧
     (ghostNext [] (decodeFrame rd200 postFrame).1 bigTrailers).map (·.1) = [[120, 45, 97], [120, 45, 98]] :=
-  H2V.Lemmas.ConnHttpP.oversize_trailers_truncated_counterexample
+  H2V.Lemmas.ConnHttpP.oversize_trailers_rejected
 
 /-- N5 (new finding, reproduced): the send side looks at the first `te` value only -/
 theorem send_second_te_counterexample :
@@ -304,6 +427,7 @@ end H2V.Props.C13
 #print axioms H2V.Props.C13.reader_invariant_reachable
 #print axioms H2V.Props.C13.hpack_hands_over_wellformed_fields_only
 #print axioms H2V.Props.C13.delivered_block_obeys_common_rules
+#print axioms H2V.Props.C13.delivered_block_is_decoding_of_concatenated_fragments
 #print axioms H2V.Props.C13.malformed_flag_survives_fragments
 #print axioms H2V.Props.C13.violating_field_raises_flag
 #print axioms H2V.Props.C13.recv_headers_hands_over_only_checked_messages
@@ -314,6 +438,15 @@ end H2V.Props.C13
 #print axioms H2V.Props.C13.body_ended_by_trailers_is_exact
 #print axioms H2V.Props.C13.head_response_body_is_empty
 #print axioms H2V.Props.C13.recv_data_hands_over_only_its_payload
+#print axioms H2V.Props.C13.refused_head_fails_stream
+#print axioms H2V.Props.C13.refused_trailers_fail_stream
+#print axioms H2V.Props.C13.data_violating_content_length_is_refused
+#print axioms H2V.Props.C13.refused_data_fails_stream
+#print axioms H2V.Props.C13.failed_stream_polls_answer_error
+#print axioms H2V.Props.C13.recv_push_promise_hands_over_only_checked_requests
+#print axioms H2V.Props.C13.connection_invariant
+#print axioms H2V.Props.C13.poll_next_yields_good_frames
+#print axioms H2V.Props.C13.recv_frame_hands_over_only_valid_messages
 #print axioms H2V.Props.C13.send_api_refuses_untouched
 #print axioms H2V.Props.C13.send_api_accepts_only_checked
 #print axioms H2V.Props.C13.connect_without_authority_counterexample
@@ -323,7 +456,7 @@ end H2V.Props.C13
 #print axioms H2V.Props.C13.trailers_with_pseudo_counterexample
 #print axioms H2V.Props.C13.two_content_lengths_counterexample
 #print axioms H2V.Props.C13.empty_content_length_counterexample
-#print axioms H2V.Props.C13.oversize_trailers_truncated_counterexample
+#print axioms H2V.Props.C13.oversize_trailers_rejected
 #print axioms H2V.Props.C13.send_second_te_counterexample
 #print axioms H2V.Props.C13.send_body_beyond_content_length_counterexample
 #print axioms H2V.Props.C13.split_malformed_block_rejected
